@@ -6,7 +6,7 @@ from .engine import AUTO
 from .runner import scenario, sim_case
 from .workloads import batch_policy, pick_chunks
 
-ROLES = ["idle", "owner", "subscriber", "caller", "routed-owner", "both", "unsent-output", "everything", "refused"]
+ROLES = ["idle", "owner", "subscriber", "caller", "routed-owner", "both", "unsent-output", "everything", "refused", "routed-owner-choked"]
 PHASES_RAW = ["between", "mid-prefix", "mid-message", "after-zero-length"]
 PHASES_WS = ["mid-request-line", "mid-headers", "after-101", "mid-ws-header", "mid-ws-payload", "mid-fragmented", "between"]
 ENDINGS_RAW = ["fin", "rst", "oversize", "bad-json", "non-object", "stray-response", "response-send-fails", "response-send-fails-buffer-full"]
@@ -94,6 +94,29 @@ def connend(case, res):
                 S.request(C, "set", {"path": "v/s", "value": S.next_val(C)})
                 S.request(C, "set", {"path": "v/s", "value": S.next_val(C), "timeout": 30})
                 S.request(O, "set", {"path": "v/s", "value": S.next_val(O)}, idv=None)
+            if role == "routed-owner-choked":
+                # V owes answers, stops reading, and is asked more until a request cannot be handed to it any more (its
+                # buffers are full: that request is refused at once); every request that WAS handed over is still owed an
+                # answer when V's connection ends
+                S.request(V, "add", {"path": "v/s", "value": S.next_val(V)})
+                S.settle()
+                S.request(C, "set", {"path": "v/s", "value": S.next_val(C)})
+                S.request(O, "set", {"path": "v/s", "value": S.next_val(O), "timeout": 60})
+                S.settle()
+                S.sim.wpol(V.fd, budget=0)
+                V.healthy = False
+                S.faults_active = True
+                pad = "v" * max(8, min(300, S.max_msg - 120))
+                refused = 0
+                for i in range(60):
+                    p = S.request(rng.choice([C, O]), "set", {"path": "v/s", "value": pad + str(i), "timeout": 60})
+                    S.settle()
+                    if p.state == "final":
+                        refused += 1
+                        if refused >= rng.choice([1, 1, 2, 3]):
+                            break
+                S.sig("choked-owner", refused > 0)
+                S.stats["choked_owner_refusals"] += refused
             # a request of a third party to another owner must survive V's end
             inflight_other = S.request(C, "call", {"path": "o/m", "args": ["survivor"]})
             S.settle()
